@@ -231,6 +231,8 @@ def failing_solve(rng, P, out, peer_mode="tagged", b=None):
             f["faults"] = {"interrupt": {"at": int(10 ** rng.uniform(0, 3.9))}}
         else:
             f["faults"] = {"interrupt": {"at": int(10 ** rng.uniform(0, 2.3)), "fn": rng.choice(targets)}}
+        if rng.random() < 0.25:
+            f["faults"]["interrupt"]["exc"] = "MemoryError"     # a failing allocation instead of Ctrl-C
     else:
         f["cfg"]["verbose"] = rng.choice([1, 2])
         f["faults"] = {"stdout": {"at": rng.randrange(1, 60), "errno": rng.choice(["EPIPE", "ENOSPC"])}}
